@@ -1864,159 +1864,205 @@ func init() {
 
 func init() {
 	register(&Rule{ID: "S2.cond", Min: 20, Text: "optional fields are encoded on their own terms: in the encoders of package converter (to_pb.go, to_bytes.go), when a field of a protobuf message is written under a condition (an if around the assignment, a range loop that appends), that condition reads only the source the written value itself is read from (the same accessor or field of the model object: `if x.InsPrevID() != nil { pb.InsPrevId = f(x.InsPrevID()) }`), an error of computing it, or the type dispatch — never a different property of the object (its removal stamp, whether it also carries contents, …). A field left out for one combination of the other fields decodes to the zero value on every replica that gets the value over the wire or from a snapshot, while the sender keeps the real one",
-		Run: func(x *Ctx) {
-			n := 0
-			cnt := map[string]int{}
-			for _, fn := range x.P.FuncsIn(convPkg) {
-				if fn.Parent() != nil {
-					continue
-				}
-				file := x.P.Fset.Position(fn.Pos()).Filename
-				if !(strings.HasSuffix(file, "to_pb.go") || strings.HasSuffix(file, "to_bytes.go")) {
-					continue
-				}
-				// accessor calls / field loads on model objects (packages crdt, operations, change, time, presence)
-				srcOf := func(v ssa.Value) map[string]bool {
-					out := map[string]bool{}
-					prog.DependsOn(v, func(w ssa.Value) bool {
-						if c, ok := prog.Strip(w).(*ssa.Call); ok {
-							var o *types.Func
-							if c.Call.IsInvoke() {
-								o = c.Call.Method
-							} else {
-								o = prog.CallObj(c)
-							}
-							if o != nil && o.Pkg() != nil && strings.Contains(o.Pkg().Path(), "/pkg/document") && o.Type().(*types.Signature).Recv() != nil {
-								out[o.Name()] = true
-							}
-						}
-						if f := prog.LoadedField(w); f != nil && f.Pkg() != nil && strings.Contains(f.Pkg().Path(), "/pkg/document") {
-							out[f.Name()] = true
-						}
-						return false
-					})
-					return out
-				}
-				for _, b := range fn.Blocks {
-					for _, ins := range b.Instrs {
-						st, ok := ins.(*ssa.Store)
-						if !ok {
-							continue
-						}
-						fa, ok := st.Addr.(*ssa.FieldAddr)
-						if !ok {
-							continue
-						}
-						f := prog.FieldVar(fa)
-						if f == nil || f.Pkg() == nil || !strings.HasSuffix(f.Pkg().Path(), "/api/yorkie/v1") || !f.Exported() {
-							continue
-						}
-						deps := x.P.ControlDeps(st.Block())
-						if len(deps) == 0 {
-							continue
-						}
-						val := srcOf(st.Val)
-						if ac, isC := prog.Strip(st.Val).(*ssa.Call); isC {
-							if bi, isB := ac.Call.Value.(*ssa.Builtin); isB && bi.Name() == "append" {
-								// what is appended, not what the destination already holds
-								val = map[string]bool{}
-								for _, a := range ac.Call.Args[1:] {
-									for k := range srcOf(a) {
-										val[k] = true
-									}
-								}
-							}
-						}
-						if len(val) == 0 {
-							continue
-						}
-						var foreign []string
-						own := false
-						pd := x.P.PostDominators(fn)
-						for _, ifi := range deps {
-							if isErrorTest(ifi.Cond) {
-								continue
-							}
-							if _, isTA := prog.Strip(ifi.Cond).(*ssa.Extract); isTA {
-								continue // comma-ok of a type assertion / type switch
-							}
-							src := srcOf(ifi.Cond)
-							isForeign := false
-							var names []string
-							for s := range src {
-								if !val[s] {
-									isForeign = true
-									names = append(names, s)
-								}
-							}
-							if !isForeign {
-								if len(src) > 0 {
-									own = true
-								}
-								continue
-							}
-							// a foreign test is a dispatch or a validation when its other side writes the message
-							// differently or returns; it is a silent omission when the other side just falls through
-							ib := ifi.Block()
-							var other *ssa.BasicBlock
-							for _, sc := range ib.Succs {
-								if sc != st.Block() && !prog.ReachableFrom(sc, nil)[st.Block()] {
-									other = sc
-								}
-							}
-							if other == nil {
-								for _, sc := range ib.Succs {
-									if !sc.Dominates(st.Block()) && sc != st.Block() {
-										other = sc
-									}
-								}
-							}
-							silent := true
-							if other != nil {
-								seen := map[*ssa.BasicBlock]bool{}
-								q := []*ssa.BasicBlock{other}
-								for len(q) > 0 {
-									cb := q[len(q)-1]
-									q = q[:len(q)-1]
-									if seen[cb] || pd.PostDom(ib, cb) {
-										continue
-									}
-									seen[cb] = true
-									for _, in2 := range cb.Instrs {
-										switch t := in2.(type) {
-										case *ssa.Return:
-											silent = false
-										case *ssa.Store:
-											if fa2, ok2 := t.Addr.(*ssa.FieldAddr); ok2 {
-												if f2 := prog.FieldVar(fa2); f2 != nil && f2.Pkg() != nil && strings.HasSuffix(f2.Pkg().Path(), "/api/yorkie/v1") {
-													silent = false
-												}
-											}
-										}
-									}
-									q = append(q, cb.Succs...)
-								}
-							}
-							if silent {
-								foreign = append(foreign, names...)
-							}
-						}
-						if !own {
-							foreign = nil // not a narrowed condition of the field's own presence test
-						}
-						sort.Strings(foreign)
-						foreign = uniq(foreign)
-						n++
-						cnt[prog.FnName(fn)+f.Name()]++
-						x.check(len(foreign) == 0, fmt.Sprintf("func=%s field=%s#%d written-on-its-own-terms", prog.FnName(fn), f.Name(), cnt[prog.FnName(fn)+f.Name()]), x.pos(st),
-							"the condition reads only what the value is read from", fmt.Sprintf("the field is written only under a condition that reads %v, which the written value is not computed from: for the other combination the field is silently left out of the encoding", foreign))
+		Run: func(x *Ctx) { condWrites(x, []string{"to_pb.go", "to_bytes.go"}, "/pkg/document", true, 20) }})
+
+	register(&Rule{ID: "S2.cond.dec", Min: 10, Text: "optional fields are decoded on their own terms: the mirror image of S2.cond for the decoders of package converter (from_pb.go, from_bytes.go) — when a setter of the model (Set…, Add…, Insert… of a pkg/document type) is called under a condition, that condition reads only the protobuf fields the value handed to the setter is decoded from (or is an error test, or a validation whose other side returns); a setter skipped because of an unrelated field of the message leaves the decoded object without state the sender has",
+		Run: func(x *Ctx) { condWrites(x, []string{"from_pb.go", "from_bytes.go"}, "/api/yorkie/v1", false, 10) }})
+}
+
+type sinkSite struct {
+	ins  ssa.Instruction
+	Val  ssa.Value
+	name string
+	args []ssa.Value
+}
+
+func (s sinkSite) Block() *ssa.BasicBlock { return s.ins.Block() }
+
+// condWrites is the engine of S2.cond (encoders: model → protobuf) and S2.cond.dec
+// (decoders: protobuf → model): a sink written under a condition that reads a source
+// the written value is not computed from, where the value's own presence test is also
+// on the path and the other side of the foreign test silently falls through.
+func condWrites(x *Ctx, files []string, srcPkg string, encoder bool, min int) {
+	n := 0
+	cnt := map[string]int{}
+	for _, fn := range x.P.FuncsIn(convPkg) {
+		if fn.Parent() != nil {
+			continue
+		}
+		file := x.P.Fset.Position(fn.Pos()).Filename
+		inFiles := false
+		for _, sfx := range files {
+			if strings.HasSuffix(file, sfx) {
+				inFiles = true
+			}
+		}
+		if !inFiles {
+			continue
+		}
+		// accessor calls / field loads on model objects (packages crdt, operations, change, time, presence)
+		srcOf := func(v ssa.Value) map[string]bool {
+			out := map[string]bool{}
+			prog.DependsOn(v, func(w ssa.Value) bool {
+				if c, ok := prog.Strip(w).(*ssa.Call); ok {
+					var o *types.Func
+					if c.Call.IsInvoke() {
+						o = c.Call.Method
+					} else {
+						o = prog.CallObj(c)
+					}
+					if o != nil && o.Pkg() != nil && strings.Contains(o.Pkg().Path(), srcPkg) && o.Type().(*types.Signature).Recv() != nil {
+						out[strings.TrimPrefix(o.Name(), "Get")] = true
 					}
 				}
+				if f := prog.LoadedField(w); f != nil && f.Pkg() != nil && strings.Contains(f.Pkg().Path(), srcPkg) {
+					out[strings.TrimPrefix(f.Name(), "Get")] = true
+				}
+				return false
+			})
+			return out
+		}
+		for _, b := range fn.Blocks {
+			for _, ins := range b.Instrs {
+				var st sinkSite
+				if encoder {
+					s0, ok := ins.(*ssa.Store)
+					if !ok {
+						continue
+					}
+					fa, ok := s0.Addr.(*ssa.FieldAddr)
+					if !ok {
+						continue
+					}
+					f := prog.FieldVar(fa)
+					if f == nil || f.Pkg() == nil || !strings.HasSuffix(f.Pkg().Path(), "/api/yorkie/v1") || !f.Exported() {
+						continue
+					}
+					st = sinkSite{ins: s0, Val: s0.Val, name: f.Name()}
+				} else {
+					c0, ok := ins.(*ssa.Call)
+					if !ok {
+						continue
+					}
+					o := prog.CallObj(c0)
+					if o == nil || o.Pkg() == nil || !strings.Contains(o.Pkg().Path(), "/pkg/document") || o.Type().(*types.Signature).Recv() == nil {
+						continue
+					}
+					if !(strings.HasPrefix(o.Name(), "Set") || strings.HasPrefix(o.Name(), "Add") || strings.HasPrefix(o.Name(), "Insert")) || len(c0.Call.Args) < 2 {
+						continue
+					}
+					st = sinkSite{ins: c0, Val: c0.Call.Args[len(c0.Call.Args)-1], name: o.Name(), args: c0.Call.Args[1:]}
+				}
+				deps := x.P.ControlDeps(st.Block())
+				if len(deps) == 0 {
+					continue
+				}
+				val := srcOf(st.Val)
+				for _, a := range st.args {
+					for k2 := range srcOf(a) {
+						val[k2] = true
+					}
+				}
+				if ac, isC := prog.Strip(st.Val).(*ssa.Call); isC {
+					if bi, isB := ac.Call.Value.(*ssa.Builtin); isB && bi.Name() == "append" {
+						// what is appended, not what the destination already holds
+						val = map[string]bool{}
+						for _, a := range ac.Call.Args[1:] {
+							for k := range srcOf(a) {
+								val[k] = true
+							}
+						}
+					}
+				}
+				if len(val) == 0 {
+					continue
+				}
+				var foreign []string
+				own := false
+				pd := x.P.PostDominators(fn)
+				for _, ifi := range deps {
+					if isErrorTest(ifi.Cond) {
+						continue
+					}
+					if _, isTA := prog.Strip(ifi.Cond).(*ssa.Extract); isTA {
+						continue // comma-ok of a type assertion / type switch
+					}
+					src := srcOf(ifi.Cond)
+					isForeign := false
+					var names []string
+					for s := range src {
+						if !val[s] {
+							isForeign = true
+							names = append(names, s)
+						}
+					}
+					if !isForeign {
+						if len(src) > 0 {
+							own = true
+						}
+						continue
+					}
+					// a foreign test is a dispatch or a validation when its other side writes the message
+					// differently or returns; it is a silent omission when the other side just falls through
+					ib := ifi.Block()
+					var other *ssa.BasicBlock
+					for _, sc := range ib.Succs {
+						if sc != st.Block() && !prog.ReachableFrom(sc, nil)[st.Block()] {
+							other = sc
+						}
+					}
+					if other == nil {
+						for _, sc := range ib.Succs {
+							if !sc.Dominates(st.Block()) && sc != st.Block() {
+								other = sc
+							}
+						}
+					}
+					silent := true
+					if other != nil {
+						seen := map[*ssa.BasicBlock]bool{}
+						q := []*ssa.BasicBlock{other}
+						for len(q) > 0 {
+							cb := q[len(q)-1]
+							q = q[:len(q)-1]
+							if seen[cb] || pd.PostDom(ib, cb) {
+								continue
+							}
+							seen[cb] = true
+							for _, in2 := range cb.Instrs {
+								switch t := in2.(type) {
+								case *ssa.Return:
+									silent = false
+								case *ssa.Store:
+									if fa2, ok2 := t.Addr.(*ssa.FieldAddr); ok2 {
+										if f2 := prog.FieldVar(fa2); f2 != nil && f2.Pkg() != nil && strings.HasSuffix(f2.Pkg().Path(), "/api/yorkie/v1") {
+											silent = false
+										}
+									}
+								}
+							}
+							q = append(q, cb.Succs...)
+						}
+					}
+					if silent {
+						foreign = append(foreign, names...)
+					}
+				}
+				if !own {
+					foreign = nil // not a narrowed condition of the field's own presence test
+				}
+				sort.Strings(foreign)
+				foreign = uniq(foreign)
+				n++
+				cnt[prog.FnName(fn)+st.name]++
+				x.check(len(foreign) == 0, fmt.Sprintf("func=%s field=%s#%d written-on-its-own-terms", prog.FnName(fn), st.name, cnt[prog.FnName(fn)+st.name]), x.pos(st.ins),
+					"the condition reads only what the value is read from", fmt.Sprintf("the field is written only under a condition that reads %v, which the written value is not computed from: for the other combination the field is silently left out of the encoding", foreign))
 			}
-			if n < 20 {
-				x.C.Vacuous(x.id()+" conditional field writes", n, 20)
-			}
-		}})
+		}
+	}
+	if n < min {
+		x.C.Vacuous(x.id()+" conditional writes", n, min)
+	}
 }
 
 // isErrorTest: cond compares an error value with nil.
